@@ -778,6 +778,23 @@ func (s *scenario) describe() string {
 		}()
 	}
 	add("session", sess)
+	// what the servicer's session cache holds for this header before the call
+	cached := "-"
+	func() {
+		defer func() { recover() }()
+		if cs, found := pc.GetSession(header, s.node.SessionStore); found {
+			var as []string
+			for _, n := range cs.SessionNodes {
+				as = append(as, n.String())
+			}
+			sort.Strings(as)
+			cached = strings.Join(as, ",")
+			if cached == "" {
+				cached = "~"
+			}
+		}
+	}()
+	add("cached", cached)
 	return strings.Join(kv, " ")
 }
 
@@ -894,17 +911,135 @@ var hrAlterations = []string{
 
 // handleRelayStream: the same scenarios through the real keeper.HandleRelay (tolerance check,
 // Validate, Proof.Store, Execute against a local HTTP server, signed response).
-func handleRelayStream(r *gen.R, url string, n int) {
+// hrSetup mounts the param store once.
+var hrPocketKey *sdk.KVStoreKey
+
+func hrInit() {
+	if hrMS != nil {
+		return
+	}
 	db := dbm.NewMemDB()
 	ms := store.NewCommitMultiStore(db, false, 5000000)
-	pocketKey := sdk.NewKVStoreKey(pc.StoreKey)
+	hrPocketKey = sdk.NewKVStoreKey(pc.StoreKey)
 	ms.MountStoreWithDB(sdk.ParamsKey, sdk.StoreTypeIAVL, db)
 	ms.MountStoreWithDB(sdk.ParamsTKey, sdk.StoreTypeTransient, db)
-	ms.MountStoreWithDB(pocketKey, sdk.StoreTypeIAVL, db)
+	ms.MountStoreWithDB(hrPocketKey, sdk.StoreTypeIAVL, db)
 	if err := ms.LoadLatestVersion(); err != nil {
 		panic(err)
 	}
 	hrMS = ms
+}
+
+// handleOne: one real keeper.HandleRelay call for the scenario in its current state.
+func (s *scenario) handleOne(url string, sessAllow int64, lean bool, nodes map[string]*pc.PocketNode, extra string) {
+	hb := &pc.HostedBlockchains{M: map[string]pc.HostedBlockchain{}}
+	for _, c := range s.hosted {
+		hb.M[c] = pc.HostedBlockchain{ID: c, URL: url}
+	}
+	k := pckeeper.NewKeeper(hrPocketKey, pc.ModuleCdc, nil, posStub{s.e}, appsStub{s.e}, hb, sdk.NewSubspace(pc.DefaultParamspace))
+	ctx := hctxMS{mkCtxMS(s.e.height), s.e}
+	params := pc.DefaultParams()
+	params.SessionNodeCount = 3
+	k.SetParams(ctx, params)
+	pc.GlobalPocketConfig.ClientBlockSyncAllowance = s.blockAllow
+	pc.GlobalPocketConfig.ClientSessionSyncAllowance = sessAllow
+	pc.GlobalPocketConfig.LeanPocket = lean
+	delete(codec.UpgradeFeatureMap, codec.EnforceMaxChainsUpdateKey)
+	pc.GlobalPocketNodes = nodes
+	desc := s.describe()
+	header := s.relay.Proof.SessionHeader()
+	rel := s.relay
+	res := func() (out string) {
+		defer func() {
+			if rr := recover(); rr != nil {
+				out = "PANIC"
+			}
+		}()
+		resp, err := k.HandleRelay(ctx, rel)
+		if err != nil {
+			return errStr(err)
+		}
+		sig, _ := hex.DecodeString(resp.Signature)
+		sigOK := s.nodeKey.PublicKey().VerifyBytes(resp.Hash(), sig)
+		evN := int64(-1)
+		stored := false
+		if ev, e := pc.GetEvidence(header, pc.RelayEvidence, sdk.ZeroInt(), s.node.EvidenceStore); e == nil {
+			evN = ev.NumOfProofs
+			for _, p := range ev.Proofs {
+				if p.HashString() == rel.Proof.HashString() {
+					stored = true
+				}
+			}
+		}
+		return fmt.Sprintf("OK sig=%v evN=%d stored=%v resp=%s", sigOK, evN, stored, hx(resp.Response))
+	}()
+	t.Line("handle-"+s.label, strings.HasPrefix(res, "OK"), "handle sessAllow=%d %s%s => %s", sessAllow, extra, desc, res)
+	t.Flush()
+}
+
+// handleSeqs: sequences through the real keeper.HandleDispatch / HandleRelay on one session cache.
+func handleSeqs(r *gen.R, url string, n int) {
+	hrInit()
+	for i := 0; i < n; i++ {
+		s := base(r)
+		member, outsider, ok := s.seqWorld(r)
+		if !ok {
+			continue
+		}
+		sess, ev := newStore(), newStore()
+		switch i % 3 {
+		case 0: // rejected, then an identical retry
+			s.addressTo(outsider, sess, ev)
+			nodes := map[string]*pc.PocketNode{s.node.GetAddress().String(): s.node}
+			s.label = "hseq-retry-1"
+			s.handleOne(url, 0, false, nodes, "")
+			s.label = "hseq-retry-2"
+			s.handleOne(url, 0, false, nodes, "")
+		case 1: // a dispatch for that application and chain is answered first (fills the session cache)
+			s.addressTo(outsider, sess, ev)
+			nodes := map[string]*pc.PocketNode{s.node.GetAddress().String(): s.node}
+			pc.GlobalSessionCache = sess
+			pc.GlobalPocketNodes = nodes
+			hb := &pc.HostedBlockchains{M: map[string]pc.HostedBlockchain{}}
+			k := pckeeper.NewKeeper(hrPocketKey, pc.ModuleCdc, nil, posStub{s.e}, appsStub{s.e}, hb, sdk.NewSubspace(pc.DefaultParamspace))
+			ctx := hctxMS{mkCtxMS(s.e.height), s.e}
+			params := pc.DefaultParams()
+			params.SessionNodeCount = 3
+			k.SetParams(ctx, params)
+			dres := func() (out string) {
+				defer func() {
+					if recover() != nil {
+						out = "PANIC"
+					}
+				}()
+				_, err := k.HandleDispatch(ctx, s.relay.Proof.SessionHeader())
+				if err != nil {
+					return errStr(err)
+				}
+				return "OK"
+			}()
+			s.label = "hseq-after-dispatch-" + strings.ReplaceAll(dres, " ", "_")
+			s.handleOne(url, 0, false, nodes, "")
+		default: // lean pocket: member and non-member servicers of one process behind one session cache
+			s.addressTo(member, sess, ev)
+			m := s.node
+			x := &pc.PocketNode{PrivateKey: outsider, EvidenceStore: newStore(), SessionStore: sess}
+			nodes := map[string]*pc.PocketNode{m.GetAddress().String(): m, x.GetAddress().String(): x}
+			s.label = "hseq-member-first"
+			s.handleOne(url, 0, true, nodes, "")
+			s.nodeKey, s.node = outsider, x
+			s.relay.Proof.ServicerPubKey = outsider.PublicKey().RawString()
+			s.resign(false, true)
+			s.label = "hseq-then-outsider"
+			s.handleOne(url, 0, true, nodes, "")
+		}
+	}
+	pc.GlobalPocketConfig.LeanPocket = false
+}
+
+func handleRelayStream(r *gen.R, url string, n int) {
+	hrInit()
+	pocketKey := hrPocketKey
 	for i := 0; i < n; i++ {
 		s := base(r)
 		a := hrAlterations[r.Intn(len(hrAlterations))]
@@ -980,6 +1115,101 @@ var stackable = []string{
 	"reqhash-short-resigned", "chain-bad-resigned", "servicer-bad-resigned", "app-absent",
 }
 
+// ---------------------------------------------------------------- multi-step sequences on one session cache
+
+// seqWorld rebuilds the scenario's worlds with six keyed validators of which three form the
+// session; returns a member and a non-member key (both nodes' keys are known to the harness).
+func (s *scenario) seqWorld(r *gen.R) (member, outsider crypto.Ed25519PrivateKey, ok bool) {
+	var keys []crypto.Ed25519PrivateKey
+	var vals []nodesTypes.Validator
+	for i := 0; i < 6; i++ {
+		k := edKey(r)
+		keys = append(keys, k)
+		vals = append(vals, nodesTypes.NewValidator(sdk.Address(k.PublicKey().Address()), k.PublicKey(), []string{chainA, chainC}, "http://x", sdk.NewInt(15000000000), nil))
+	}
+	for _, w := range s.e.worlds {
+		w.vals = vals
+		w.count = 3
+	}
+	sctx := mkCtx(s.sbh)
+	bh, err := sctx.BlockHash(pc.ModuleCdc, s.sbh)
+	if err != nil {
+		return
+	}
+	ss, er := pc.NewSession(sctx, hctx{mkCtx(s.e.height), s.e}, posStub{s.e}, s.relay.Proof.SessionHeader(), hex.EncodeToString(bh), 3)
+	if er != nil {
+		return
+	}
+	in := map[string]bool{}
+	for _, n := range ss.SessionNodes {
+		in[n.String()] = true
+	}
+	var haveM, haveO bool
+	for _, k := range keys {
+		a := sdk.Address(k.PublicKey().Address()).String()
+		if in[a] && !haveM {
+			member, haveM = k, true
+		}
+		if !in[a] && !haveO {
+			outsider, haveO = k, true
+		}
+	}
+	return member, outsider, haveM && haveO
+}
+
+// address the scenario's relay to the node with key k (shares the session and evidence stores)
+func (s *scenario) addressTo(k crypto.Ed25519PrivateKey, sessStore, evStore *pc.CacheStorage) {
+	s.nodeKey = k
+	s.node = &pc.PocketNode{PrivateKey: k, EvidenceStore: evStore, SessionStore: sessStore}
+	s.relay.Proof.ServicerPubKey = k.PublicKey().RawString()
+	s.resign(false, true)
+}
+
+// validateSeqs: sequences through the real Relay.Validate on ONE servicer's session cache.
+func validateSeqs(r *gen.R, n int) {
+	for i := 0; i < n; i++ {
+		s := base(r)
+		member, outsider, ok := s.seqWorld(r)
+		if !ok {
+			continue
+		}
+		sess, ev := newStore(), newStore()
+		switch i % 3 {
+		case 0: // a relay to a non-member is rejected - and rejected again on a plain retry
+			s.addressTo(outsider, sess, ev)
+			s.label = "seq-retry-1"
+			s.run()
+			s.label = "seq-retry-2"
+			s.run()
+			s.relay.Proof.Entropy++
+			s.resign(false, true)
+			s.label = "seq-retry-3-new-entropy"
+			s.run()
+		case 1: // the session is already cached (as HandleDispatch / HandleChallenge leave it)
+			s.addressTo(outsider, sess, ev)
+			sctx := mkCtx(s.sbh)
+			bh, _ := sctx.BlockHash(pc.ModuleCdc, s.sbh)
+			if ss, er := pc.NewSession(sctx, hctx{mkCtx(s.e.height), s.e}, posStub{s.e}, s.relay.Proof.SessionHeader(), hex.EncodeToString(bh), 3); er == nil {
+				pc.SetSession(ss, sess)
+			}
+			s.label = "seq-precached-outsider"
+			s.run()
+		default: // a member is served; the same cache then sees a relay addressed to a non-member
+			s.addressTo(member, sess, ev)
+			s.label = "seq-member-first"
+			s.run()
+			s.addressTo(outsider, sess, newStore())
+			s.label = "seq-then-outsider"
+			s.run()
+			s.addressTo(member, sess, ev)
+			s.relay.Proof.Entropy++
+			s.resign(false, true)
+			s.label = "seq-member-again"
+			s.run()
+		}
+	}
+}
+
 func oneCase(seed uint64, a string) (sc *scenario) {
 	parts := strings.Split(a, "+")
 	if len(parts) > 1 {
@@ -1047,6 +1277,8 @@ func main() {
 			done++
 		}
 	}
+	validateSeqs(r, 6+*n/40)
 	handleRelayStream(r, srv.URL, *n/4)
+	handleSeqs(r, srv.URL, 4+*n/80)
 	t.Close(nil)
 }
